@@ -1331,14 +1331,19 @@ def loop_in_thread(loop: Loop) -> Callable[[], None]:
     >>> loop.is_running()  # No longer running
     False
     """
+    started: List[bool] = []
+
     def _loop_thread() -> None:
         with _get_loop_lock(loop):
             aio.set_event_loop(loop)
+            # Only this run_forever() processes the callback: the loop
+            # may also be "running" temporarily on behalf of ensure_aw()
+            loop.call_soon(started.append, True)
             loop.run_forever()
 
     future = _CROSS_LOOP_POOL.submit(_loop_thread)
 
-    while not loop.is_running():
+    while not started:
         sleep(0)  # Force switching to other threads
 
     def _stopper() -> None:
